@@ -9,14 +9,21 @@ package cache
 // of exactly the ids it was called with and delegates to the backing store with exactly those ids.
 
 //@ func memcacheRequestKey props(C17,C19)
+//@   local backendID param 0 0
+//@   local requestID param 0 1
 //@   assigns nothing
 //@   ensures[C17:request-key-quotes-both-ids] r0 == sprintf("r:%q:%q", backendID, requestID)
 
 //@ func memcacheResponseKey props(C17,C19)
+//@   local backendID param 0 0
+//@   local requestID param 0 1
 //@   assigns nothing
 //@   ensures[C17:response-key-quotes-both-ids] r0 == sprintf("resp:%q:%q", backendID, requestID)
 
 //@ func (*cachingStore).ReadRequest props(C17,C19,C07)
+//@   local backendID param 0 1
+//@   local c recv 0 0
+//@   local requestID param 0 2
 //@   requires c != nil && c.BackingStore != nil
 //@   call memcacheRequestKey
 //@     assert[C17:cache-lookup-under-callers-ids] arg0 == backendID && arg1 == requestID
@@ -24,6 +31,9 @@ package cache
 //@     assert[C17:backing-read-under-callers-ids] arg0 == c.BackingStore && arg2 == backendID && arg3 == requestID
 
 //@ func (*cachingStore).ReadResponse props(C17,C19,C07)
+//@   local backendID param 0 1
+//@   local c recv 0 0
+//@   local requestID param 0 2
 //@   requires c != nil && c.BackingStore != nil
 //@   call memcacheResponseKey
 //@     assert[C19:cache-lookup-under-callers-ids] arg0 == backendID && arg1 == requestID
@@ -31,6 +41,8 @@ package cache
 //@     assert[C19:backing-read-under-callers-ids] arg0 == c.BackingStore && arg2 == backendID && arg3 == requestID
 
 //@ func (*cachingStore).WriteRequest props(C17,C19,C07)
+//@   local c recv 0 0
+//@   local r param 0 1
 //@   requires c != nil && c.BackingStore != nil && r != nil
 //@   call memcacheRequestKey
 //@     assert[C19:cache-entry-under-the-requests-own-ids] arg0 == r.BackendID && arg1 == r.RequestID
@@ -38,6 +50,8 @@ package cache
 //@     assert[C19:backing-write-of-the-same-request] arg0 == c.BackingStore && arg2 == r
 
 //@ func (*cachingStore).WriteResponse props(C17,C19,C07)
+//@   local c recv 0 0
+//@   local r param 0 1
 //@   requires c != nil && c.BackingStore != nil && r != nil
 //@   call memcacheResponseKey
 //@     assert[C19:cache-entry-under-the-responses-own-ids] arg0 == r.BackendID && arg1 == r.RequestID
@@ -45,12 +59,17 @@ package cache
 //@     assert[C19:backing-write-of-the-same-response] arg0 == c.BackingStore && arg2 == r
 
 //@ func (*cachingStore).IsBackendUserAllowed props(C17,C07)
+//@   local backendID param 0 2
+//@   local backendUser param 0 1
+//@   local c recv 0 0
 //@   requires c != nil && c.BackingStore != nil
 //@   call (types.Store).IsBackendUserAllowed
 //@     assert[C17:authorisation-is-never-cached] arg0 == c.BackingStore && arg2 == backendUser && arg3 == backendID
 //@   ensures[C17:answer-of-the-authoritative-store] true
 
 //@ func (*cachingStore).ListPendingRequests props(C17,C07)
+//@   local backendID param 0 1
+//@   local c recv 0 0
 //@   requires c != nil && c.BackingStore != nil
 //@   call (types.Store).ListPendingRequests
 //@     assert[C17:list-under-callers-backend] arg0 == c.BackingStore && arg2 == backendID
